@@ -1438,7 +1438,82 @@ def check_C01(run, replay=None):
     return run.finish()
 
 
-CHECKS = {"C01": check_C01, "C02": check_C02, "C10": check_C10, "C09": check_C09, "C12": check_C12, "C15": check_C15, "C19": check_C19, "C13": check_C13, "C03": check_C03, "C04": check_C04, "C05": check_C05, "C06": check_C06, "C07": check_C07, "C08": check_C08, "C11": check_C11, "C16": check_C16, "C17": check_C17}
+# ---- C14: no panic, exactly one response ---------------------------------------
+
+def check_C14(run, replay=None):
+    regen_translator(run, "panicsites")
+    proof_ok = run.proof_side()
+    sites_txt = open(os.path.join(ROOT, "coq", "theories", "Gen", "PanicSites.txt")).read()
+    unguarded = [l.strip() for l in re.findall(r"== Unguarded.*?(?=\n== |\Z)", sites_txt, re.S)[0].split("\n")[1:]] if "== Unguarded" in sites_txt else []
+    cases, impl, model, meta = run.run_vh(["-cases", replay] if replay else None, timeout=6000)
+    dline = {}
+    for c in cases:
+        if c.startswith("D "):
+            dline[c.split(" ", 2)[1]] = c
+    nbad = fam_report_bad_packages(run, meta)
+    n = 0
+    outcomes = {}
+    bad = []
+    for i, c in enumerate(cases):
+        if not c.startswith("F ") or impl[i].startswith("SKIP"):
+            continue
+        n += 1
+        kv = parse_kv(impl[i])
+        st = kv.get("status", "CRASH" if impl[i].startswith("CRASH") else "?")
+        why = None
+        if st == "PANIC":
+            why = "panic while serving: " + bytes.fromhex(kv.get("panic", "")).decode("utf8", "replace")
+        elif st in ("CRASH", "?"):
+            why = "the server process died (fatal error) or gave no observation: " + impl[i][:200]
+        elif kv.get("parse", "").startswith("Panic("):
+            why = "panic inside Parse(): " + bytes.fromhex(kv["parse"][6:-1]).decode("utf8", "replace")
+        elif kv.get("wh") != "1":
+            why = "WriteHeader was called %s times (exactly one response expected)" % kv.get("wh")
+        pc = "value" if kv.get("parse", "").startswith("{") else ("error" if kv.get("parse", "").startswith("Err(") else "-")
+        key = "%s/parse=%s" % (st, pc)
+        outcomes[key] = outcomes.get(key, 0) + 1
+        if why:
+            bad.append((len(c), i, why))
+    bad.sort()
+    for (_, i, why) in bad[:3]:
+        f = cases[i].split(" ")
+        ux = lambda h: "" if h == "-" else bytes.fromhex(h).decode("latin1")
+        run.violation({"property": run.prop, "case": cases[i], "context": [dline.get(f[1], "")],
+                       "request": {"api_cfg": f[2], "method": f[3], "url": ux(f[4]), "headers": ux(f[5]), "body": ux(f[6])[:2000]},
+                       "observed": impl[i][:1000], "broken": why}, cases[i])
+    run.coverage.update({
+        "rule": "REGENERATED OBLIGATION: the translator (go/packages + go/types over the server-side files the generator emits for 300+ documents: "
+                "kitchen-sink packages and a spread of the C01 matrix) inventories every slice, index, non-comma-ok type assertion, func-value call, "
+                "nil-able interface call, map store and integer division, and classifies the guard around it; every class must be one proved "
+                "sufficient (C14_every_site_classified by computation, C14_guards_suffice). RUN: random kitchen-sink packages (typed path variables, "
+                "query/header parameters of every type incl. arrays and nullable, JSON bodies incl. allOf, raw bodies, three security schemes, CORS, "
+                "10 base-path forms, responses with headers/bodies/default) x API configurations x requests: near-valid, doubled slashes, truncated "
+                "and extended paths, base-path near-misses, other methods, malformed queries, huge paths, odd request targets, wrong content "
+                "types; JSON bodies: 30 malformed shapes (truncated, 20000-deep nesting, invalid UTF-8, BOM, trailing data) and per-key type/"
+                "null/drop mutants of valid documents; observed: recover() around ServeHTTP and around Parse(), WriteHeader count.",
+        "evaluations": n, "outcomes": outcomes, "failures": len(bad),
+        "programs": meta.get("packages_ok", 0), "packages_not_built": nbad,
+        "site_inventory": [l for l in sites_txt.split("\n") if l.startswith("==") or l.startswith("packages")],
+        "unguarded_sites": unguarded[:20],
+        "input_distribution": {k: v for k, v in meta.items() if k != "packages_bad"},
+        "trusted_base": TRUSTED_COMMON + ROUTER_TRUSTED + [
+            "PARTIAL: panics inside encoding/json, strconv, time, net/url, net/http, stack exhaustion and user code (handlers, hooks) are outside "
+            "the model; they are exercised by the run, not proved absent",
+            "translator harness/cmd/vh/panicsites.go: completeness of the site inventory (AST kinds listed in the rule) and soundness of its "
+            "syntactic guard recognition (dominating if-return, loop headers, make-before-use) are trusted; each recognised shape is modelled "
+            "in Model/Partial.v and proved in Proofs/PartialProofs.v",
+            "preconditions of the property used by four classes: configured API (handlers, hooks, middlewares, LogError non-nil), server "
+            "request (net/http: Body non-nil), handlers return responses with non-nil body readers"],
+    })
+    if not proof_ok:
+        # a site lost its guard (or a new kind of site appeared): the run above is the search for a crashing request
+        cf = dict(getattr(run, "coq_failure", {}), input=None, unguarded_sites=unguarded[:20])
+        if not bad:
+            run.violation(cf, None, note="no-failing-input-found")
+    return run.finish()
+
+
+CHECKS = {"C14": check_C14, "C01": check_C01, "C02": check_C02, "C10": check_C10, "C09": check_C09, "C12": check_C12, "C15": check_C15, "C19": check_C19, "C13": check_C13, "C03": check_C03, "C04": check_C04, "C05": check_C05, "C06": check_C06, "C07": check_C07, "C08": check_C08, "C11": check_C11, "C16": check_C16, "C17": check_C17}
 
 
 def setup():
